@@ -14,6 +14,9 @@ CONSTANTS
   Fine = TRUE
   CheckRotTo = TRUE
   CommitAfterSync = TRUE
+  MaxTears = 0
+  TornMode = "refuse"
+  Asaps = {TRUE, FALSE}
 VIEW View
 INVARIANTS OffsetsChain CommitMonotone CommitAtBoundary CommitDurable StopCommitsAll ReplayExact
 CHECK_DEADLOCK FALSE
